@@ -102,6 +102,7 @@ func buildCases(seed int64, n int) []caseSpec {
 		c.Opts.BackslashDoc = r.Intn(100) < 8
 		c.Opts.StructFields = c.Layout == "single" && !c.Opts.Pure && r.Intn(100) < 40
 		c.Opts.ScaffoldEdit = !c.Opts.Pure && r.Intn(100) < 8
+		c.Opts.GroupScaffold = !c.Opts.Pure && !c.Opts.ScaffoldEdit && r.Intn(100) < 20
 		nSteps := 1 + r.Intn(3)
 		for s := 0; s < nSteps; s++ {
 			var kinds []string
